@@ -16,9 +16,9 @@ import (
 type Opts struct {
 	// ASCIIOnlyWhereBytesDiffer: known-finding exclusion
 	// strings.multibyte_where_bytes_differ.
-	ByteSafe func() bool
-	Excluded map[string]int
-	NoNulls  bool // never draw null at nullable positions
+	ByteSafe  func() bool
+	Excluded  map[string]int
+	NoNulls   bool // never draw null at nullable positions
 	ASCIIOnly bool // strings from the ASCII alphabet only
 	// NoNullObjects: known-finding exclusion nulls.nullable_object_with_properties.
 	NoNullObjects func() bool
